@@ -72,7 +72,7 @@ def option_alphabet(profile):
 
 
 def plan(tier, seed):
-    tasks = []
+    tasks = [('repo_root', {'i': i}) for i in range(len(ROOT_SHAPES))]
     nmax = 2 if tier == 'quick' else 3
     for profile in ('PatchParse', 'NumstatParse', 'RawDiffParse'):
         A = option_alphabet(profile)
@@ -237,7 +237,45 @@ def ob_general(h, shape):
     h.sample = h.witness()
 
 
+def _install_root(M):
+    from mirsym.models.paths import mk_pathbuf
+    def exec_git(P, c, args, dt):
+        st = P.state.get('c12_root')
+        if st is None:
+            raise Unsupported('exec_git without a harness answer')
+        argv = []
+        for a in elems_of(args[0]):
+            b = concrete_bytes(as_bytes(a))
+            argv.append(bytes(b).decode() if b is not None else 'KV')
+        eff = git_effective_dir(st['cwd'], argv)
+        if not (eff == '/r' or eff.startswith('/r/')):
+            return err(mk_enum(P.M, 'error::GitAiError', 'GitCliError', some(Sc(128, 32, True)), pystring('fatal: not a git repository'), VecV([])))
+        if 'rev-parse' not in argv:
+            raise Unsupported('exec_git %r' % argv)
+        if '--show-toplevel' in argv:
+            out = '/r\n'
+        else:
+            gd = '.git' if eff == '/r' else '/r/.git'
+            out = 'false\n%s\n%s\n' % (gd, gd)
+        P.events.append(('rev_parse', eff))
+        return ok(Agg('std::process::Output', [Opaque('ExitStatus', 0), VecV([Sc(b, 8) for b in out.encode()]), VecV([])]))
+
+    def current_dir(P, c, args, dt):
+        st = P.state.get('c12_root')
+        if st is None:
+            raise Unsupported('current_dir without a harness answer')
+        return ok(mk_pathbuf(list(st['cwd'].encode())))
+
+    def storage(P, c, args, dt):
+        return Opaque('RepoStorage', None)
+    M.env['git::repository::exec_git'] = exec_git
+    M.env['std::env::current_dir'] = current_dir
+    M.env['git::repo_storage::RepoStorage::for_repo_path'] = storage
+    M.env['git::repo_storage::RepoStorage::for_isolated_worktree_storage'] = storage
+
+
 def install(M):
+    _install_root(M)
     def should_disable(P, c, args, dt):
         return P.state.get('hooks_disabled', FALSE)
     M.env['git::repository::should_disable_internal_git_hooks'] = should_disable
@@ -341,7 +379,75 @@ def ob_callsite(h, shape):
     h.sample = h.witness()
 
 
-OBLIGATIONS = {'pin': ob_pin, 'general': ob_general, 'hooks': ob_hooks, 'callsite': ob_callsite}
+
+# ---------------------------------------------------------------------------
+# K4: where internal commands run
+
+def git_effective_dir(cwd, argv):
+    """git's own rule: every `-C <path>` changes directory, relative to the preceding one"""
+    import posixpath
+    d = cwd
+    i = 0
+    while i < len(argv):
+        if argv[i] == '-C' and i + 1 < len(argv):
+            d = argv[i + 1] if argv[i + 1].startswith('/') else posixpath.normpath(posixpath.join(d, argv[i + 1]))
+            i += 2
+            continue
+        i += 1
+    return posixpath.normpath(d)
+
+
+ROOT_SHAPES = [
+    # (process cwd, the user's global options; KV = a symbolic key=value)
+    ('/r', []), ('/r/sub', []),
+    ('/r', ['-C', 'sub']), ('/r/sub', ['-C', '..']), ('/elsewhere', ['-C', '/r/sub']), ('/elsewhere', ['-C', '/r']),
+    ('/r/sub', ['-c', 'KV']), ('/r', ['-c', 'KV']), ('/r/sub', ['--no-pager']), ('/r/sub', ['-c', 'KV', '--no-pager']),
+    ('/r', ['-C', 'sub', '-c', 'KV']), ('/r', ['-c', 'KV', '-C', 'sub']), ('/elsewhere', ['--no-pager', '-C', '/r/sub']),
+    ('/r', ['-C', 'sub', '-C', '..']), ('/elsewhere', ['-C', '/r', '-C', 'sub']), ('/r/sub', ['-c', 'KV', '-c', 'KV']),
+    ('/r/sub', ['--literal-pathspecs']), ('/r/sub', ['--exec-path=/x']),
+]
+
+
+def ob_repo_root(h, shape):
+    """K4: whatever global options the user typed and whatever directory git was started in, the commands git-ai runs
+    itself (diffs and status with root-relative pathspecs) run from the repository root: find_repository is executed
+    with git answering rev-parse from a model work tree (/r with a subdirectory), and the option vector it keeps for
+    internal commands is judged by git's own -C rule"""
+    P = h.P
+    M = P.M
+    cwd, opts = ROOT_SHAPES[shape['i']]
+    kv = [h.byte_in('k0', [97, 122]), 46] + list(b'b=') + [h.byte_in('v0', [49, 32, 45])]
+    argv = [StringV(list(kv)) if o == 'KV' else pystring(o) for o in opts]
+    P.state['cwd'] = cwd
+    P.state['fs'] = {'/r': 'DIR', '/r/.git': 'DIR', '/r/sub': 'DIR', '/elsewhere': 'DIR'}
+    P.state['c12_root'] = {'cwd': cwd}
+    h.inputs_struct = {'cwd': cwd, 'options': opts, 'kv': ByteStr(kv)}
+    v = VecV(argv)
+    try:
+        r = P.call_named('git::repository::find_repository', [SliceRef(v, 0, len(argv))])
+    except Panic as e:
+        h.panic('K4-no-panic', e.msg)
+        return
+    h.require(r.var == 'Ok', 'K4-repository-is-found', 'find_repository failed inside a work tree')
+    if r.var != 'Ok':
+        return
+    repo = r.f[0]
+    ga = field(M, repo, 'git::repository::Repository', 'global_args')
+    kept = []
+    for a in ga.e:
+        b = concrete_bytes(as_bytes(a))
+        kept.append(bytes(b).decode() if b is not None else 'KV')
+    eff = git_effective_dir(cwd, kept)
+    h.require(eff == '/r', 'K4-internal-commands-run-from-the-repository-root',
+              'started in %s with global options %r, git-ai keeps %r for its own git commands: they run in %s, where root-relative pathspecs match nothing' % (cwd, opts, kept, eff))
+    # the user's configuration options are still passed on
+    for o in opts:
+        if o in ('-c', '--no-pager', '--literal-pathspecs', '--exec-path=/x', 'KV'):
+            h.require(o in kept, 'K4-user-options-are-kept', 'option %s was dropped from the internal invocations' % o)
+    h.sample = h.witness()
+
+
+OBLIGATIONS = {'repo_root': ob_repo_root, 'pin': ob_pin, 'general': ob_general, 'hooks': ob_hooks, 'callsite': ob_callsite}
 
 
 def _replay_callsite(v, native):
@@ -391,7 +497,37 @@ def _replay_callsite(v, native):
         subprocess.call(['rm', '-rf', tmp])
 
 
+def _replay_repo_root(v, native):
+    """K4 natively: a real work tree with a subdirectory; the real find_repository with the counterexample's options,
+    started in the counterexample's directory; real git says where the kept option vector makes it run"""
+    import os
+    import subprocess
+    import tempfile
+    inp = v['inputs']
+    tmp = os.path.realpath(tempfile.mkdtemp(prefix='vc12r'))
+    try:
+        os.makedirs(os.path.join(tmp, 'r', 'sub'))
+        os.makedirs(os.path.join(tmp, 'elsewhere'))
+        env = dict(os.environ, HOME=tmp, GIT_CONFIG_NOSYSTEM='1')
+        subprocess.run(['git', 'init', '-q', os.path.join(tmp, 'r')], env=env, check=True, stdout=subprocess.PIPE, stderr=subprocess.PIPE)
+        kv = bytes_of_json(inp['kv']).decode()
+        opts = [kv if o == 'KV' else ((tmp + o) if o.startswith('/r') else o) for o in inp['options']]
+        r = native('c12_repo_root', {'cwd': tmp + inp['cwd'], 'options': opts})
+        if 'panic' in r:
+            return {'reproduced': v['kind'] == 'panic', 'native': r}
+        if v['kind'] == 'panic':
+            return {'reproduced': False, 'native': r}
+        bad = {'K4-repository-is-found': not r.get('ok'),
+               'K4-internal-commands-run-from-the-repository-root': bool(r.get('ok')) and r.get('prefix') != '',
+               'K4-user-options-are-kept': bool(r.get('ok')) and not all(o in r.get('kept', []) for o in opts if not o.startswith(tmp) and o not in ('-C', 'sub', '..'))}
+        return {'reproduced': bool(bad.get(v['obligation'])), 'native': r}
+    finally:
+        subprocess.call(['rm', '-rf', tmp])
+
+
 def replay(v, native):
+    if v['obligation'].startswith('K4-'):
+        return _replay_repo_root(v, native)
     if 'fn' in v['inputs']:
         return _replay_callsite(v, native)
     inp = v['inputs']
